@@ -915,6 +915,10 @@ PROPS["C13"] = dict(
 # ---------------------------------------------------------------------------- C12
 def pred_c12(line, st):
     op, a, r = toks(line)
+    if op.startswith("args.") and tag_of(a) == "one-card":
+        # the argument classes assert n >= 2 on the CALLER's statement (a stack of one card); the size of the caller's own
+        # stack is not untrusted input (the stack-level verifiers compare the received stack's size with it first)
+        return None
     if r and (r[0].startswith("trap:") or r[0] in ("timeout", "oom")):
         return "untrusted input ended in %s (%s)" % (r[0], op)
     if op == "prop.args.malformed" and any(x.startswith("trap:") for x in r):
